@@ -204,7 +204,7 @@ static int dfs_case(const dd_prog_t *p, const dd_cfg_t *cfg)
         if (ds_hold_mode && cur_hold >= 0 && !bad && !ds_hold_done) { case_kv(p, cfg, cs); fail_record("internal: the held task never entered its body"); ST->broken++; bad = 1; }
         if (ST->nsamples < 2 && ex.runs == 1 && (ST->states % 23) == 7 && p->nt >= 2) {
             char ps[256]; dd_prog_print(p, ps, sizeof(ps));
-            dh_stats_sample(ST, "program [%s] window=%d/%d%s%.0d interleaving: %s", ps, cfg->window, cfg->threshold, cur_hold >= 0 ? " held task T" : "", cur_hold >= 0 ? cur_hold : 0, ex.order);
+            dh_stats_sample(ST, "program [%s] window=%d/%d held task %d interleaving: %s", ps, cfg->window, cfg->threshold, cur_hold, ex.order);
         }
         ds_end_run(&ex);
         if (ex.diverged) { fprintf(stderr, "dtd gate/hold: nondeterministic replay\n"); ST->broken++; break; }
